@@ -22,6 +22,24 @@ import vlib
 
 UNIT = 512
 MISMATCH = ("wrongdig", "sizeplus", "sizeminus", "prefix")
+INVALID = ("baddig", "unkalg")
+
+# environment dimensions: they change nothing in what a conforming client has to send, so the
+# prediction of (D) still applies; each TLC scenario gets a random combination (pairwise coverage
+# follows from the number of scenarios)
+ENV = {
+    "host": ["c05.test", "c05.test:5000"],
+    "alias": ["", "backend.c05.test:8443"],
+    "repo": ["proj/tgt", "tgt", "a/b/c-d/e"],
+    "refsfx": ["", ":v1", "@sha256:" + "ab" * 32],
+    "prefix": ["", "pfx", "p1/p2"],
+    "tls": [0, 1],
+    "mirror": [0, 1],
+    "conc": [0, 1],
+    "warm": [0, 1],
+    "mt": ["", "application/octet-stream", "application/vnd.oci.image.layer.v1.tar+gzip"],
+    "auth": [0, 1],
+}
 WRONGSIZE = ("sizeplus", "sizeminus", "sizeonlyplus", "sizeonlyminus", "prefix")
 
 
@@ -44,6 +62,28 @@ def to_drv(s, sid, rng):
         "decl": cf["decl"], "alg": rng.choice(["sha256", "sha512"]), "loc": cf["loc"],
         "exists": cf["exists"], "koff": 0, "sdelta": 0, "script": [],
     }
+    # --- dimensions (D) abstracts from
+    for k, vals in ENV.items():
+        if cf["dest"] == "ocidir" and k not in ("refsfx", "warm", "mt"):
+            continue
+        scn[k] = vals[0] if rng.random() < 0.55 else rng.choice(vals[1:])
+    if cf["dest"] == "ocidir" and scn.get("refsfx", "").startswith("@"):
+        scn["refsfx"] = ":v1"
+    retry = s.get("retry", 5)
+    if retry != 5:
+        scn["retry"] = retry
+        scn["auth"] = 0                     # the 401 round trip uses one of the (fewer) tries
+    if cf["dest"] == "reg" and not cf["seek"] and rng.random() < 0.4:
+        scn["seek"] = 2                     # a seeker whose Seek fails: as little rewindable as a plain reader
+    if cf["loc"] == "query":
+        # the model treats every style that carries a token alike (query string, relative reference,
+        # absolute URL that moves); without faults the token free style behaves the same as well
+        faultfree = not any(st["act"].startswith(("f5", "rst")) for st in s["script"])
+        x = rng.random()
+        scn["loc"] = "query" if x < 0.4 else "rel" if x < 0.6 else "move" if x < 0.85 else \
+            "plain" if faultfree else "query"
+    if cf["decl"] == "baddig" and rng.random() < 0.5:
+        scn["decl"] = "unkalg"              # well formed digest of an unavailable algorithm: same code path
     if cf["len"] == 0 and cf["decl"] in ("right", "digonly"):
         scn["alg"] = "sha256"               # BlobPut knows the empty blob only by its sha256 digest (zeroDig)
     for st in s["script"]:
@@ -54,6 +94,9 @@ def to_drv(s, sid, rng):
     # likewise an unset host.BlobMax with the client wide limit (WithBlobSize max)
     if cf["dest"] == "reg" and rng.random() < 0.25:
         scn["blobmax"], scn["defmax"] = 0, cf["bmax"]
+    # WithBlobLimit = the model's ChunkLimit (6 units); it also raises a positive client wide max
+    if cf["dest"] == "reg" and scn["defmax"] <= 0 and rng.random() < 0.3:
+        scn["limit"] = 6
     return scn
 
 
@@ -111,6 +154,8 @@ def variants(base, rng, n):
     wsize = [b for b in base if b["decl"] in WRONGSIZE]
     for i in range(n):
         kind = ("tail", "koff", "piece", "unit1", "tail+koff", "sdelta")[i % 6]
+        if i % 40 == 39:
+            kind = "unit64k"
         if kind == "sdelta" and wsize:
             b = copy.deepcopy(wsize[rng.randrange(len(wsize))])
         elif oci and kind in ("tail", "piece") and i % 4 == 0:
@@ -127,6 +172,8 @@ def variants(base, rng, n):
             b["piece"] = rng.choice([1, 100, 700])
         if kind == "unit1":
             b["unit"] = 1
+        if kind == "unit64k":                # sizes above the copy buffers of io and net/http
+            b["unit"] = 65536
         if kind == "sdelta":                 # declared size next to / away from the block boundary
             b["sdelta"] = rng.choice([1, -1, 100, -100])
         b["variant"] = kind
@@ -176,6 +223,11 @@ def run(ctx):
     if r["violated"] not in ("O1Strict", "O2Strict"):
         raise vlib.ToolError("BlobPut.tla no longer shows the mount short cut (finding C05-1); update "
                              "the spec, the known finding and this check together")
+    r = ctx.tlc("BlobPutMC", "C05_mc_known_baddig.cfg", allow_violation=True,
+                label="expected: a declared digest that does not validate is ignored")
+    if r["violated"] != "O2Strict":
+        raise vlib.ToolError("BlobPut.tla no longer shows the ignored invalid digest (finding C05-2); update "
+                             "the spec, the known finding and this check together")
     r = ctx.tlc("BlobPutMC", "C05_mc_s13.cfg", allow_violation=True,
                 label="expected: chunks shrink after a partial acceptance (S13)")
     if r["violated"] != "NoMinViolation":
@@ -187,9 +239,10 @@ def run(ctx):
     # ------------------------------------------------------------ 2. scenarios from TLC
     tlc_scns = []
     for cfg, label in (("C05_gen_core.cfg", "all partial acceptances, small space"),
-                       ("C05_gen_decl.cfg", "descriptors x mount/refuse/fall-back, both destinations"),
-                       ("C05_gen_size.cfg", "declared size above / below the length, on and off chunk boundaries, "
-                                            "no digest / digest of the stream / digest of the prefix"),
+                       ("C05_gen_bf.cfg", "no partial acceptance, no fault: descriptors x mount/refuse/fall-back on both "
+                                          "destinations; declared size above / below the length on and off chunk "
+                                          "boundaries with no digest / digest of the stream / of the prefix; minimum "
+                                          "chunk length x chunk setting on the POST and on the mount reply"),
                        ("C05_gen_s13.cfg", "enforced minimum chunk length + partial acceptance (S13, safety only)")):
         g = ctx.tlc_scenarios("BlobPutGen", cfg, workers=8, label="generator " + label)
         got = sorted(g["scenarios"], key=lambda x: json.dumps(x, sort_keys=True))
@@ -202,12 +255,17 @@ def run(ctx):
     for s in g["scenarios"]:
         s["src"] = "gen_sim"
     tlc_scns += g["scenarios"]
+    g = ctx.tlc_scenarios("BlobPutGen", "C05_gen_retry.cfg", workers=1, simulate="num=%d" % (nsim // 4), depth=500,
+                          extra=["-seed", str(ctx.seed + 1000)], label="generator random behaviours, retry limit 3")
+    for s in g["scenarios"]:
+        s["src"] = "gen_retry"
+    tlc_scns += g["scenarios"]
     if len(tlc_scns) < 500:
         raise vlib.ToolError("generator produced only %d scenarios" % len(tlc_scns))
     # drop duplicates (the random generator repeats short behaviours)
     seen, uniq = set(), []
     for s in tlc_scns:
-        key = hashlib.sha1(json.dumps([s["cf"], s["script"]], sort_keys=True).encode()).hexdigest()
+        key = hashlib.sha1(json.dumps([s["cf"], s["script"], s.get("retry", 5)], sort_keys=True).encode()).hexdigest()
         if key not in seen:
             seen.add(key)
             uniq.append(s)
@@ -221,10 +279,10 @@ def run(ctx):
         drv.append(d)
         model[sid] = s
     exact_ids = set(model)
-    var = variants([d for d in drv if d["id"].startswith(("gen_core", "gen_sim", "gen_size"))], rng, 3000 if thorough else 400)
+    var = variants([d for d in drv if d["id"].startswith(("gen_core", "gen_sim", "gen_bf", "gen_retry"))], rng, 3000 if thorough else 400)
     drv += var
     for b in var:
-        if b["variant"] == "unit1":          # only the scale changes: the model's prediction still applies
+        if b["variant"] in ("unit1", "unit64k"):  # only the scale changes: the model's prediction still applies
             model[b["id"]] = model[b["base"]]
             exact_ids.add(b["id"])
 
@@ -279,17 +337,26 @@ def run(ctx):
     # Scenarios in the input class of the known finding C05-1 (mismatching descriptor + accepted
     # mount) are each rejected by (P); as long as the finding is open only a few of them are
     # validated (every rejection costs one more TLC run), the others are counted as skipped.
-    known_open = any(k.get("id") == "C05-1-mount-shortcut" and k.get("status") == "known"
-                     for k in ctx.load_known().get("findings", []))
+    open_ids = {k.get("id") for k in ctx.load_known().get("findings", []) if k.get("status") == "known"}
     def known_class(t):
         sc = t["scenario"]
-        return sc["decl"] in MISMATCH and any(st["on"] == "mount" and st["act"] == "accept" for st in sc["script"])
+        if "C05-1-mount-shortcut" in open_ids and sc["decl"] in MISMATCH and \
+                any(st["on"] == "mount" and st["act"] == "accept" for st in sc["script"]):
+            return "mount"
+        if "C05-2-invalid-digest-ignored" in open_ids and sc["decl"] in INVALID:
+            return "invalid-" + sc["dest"]
+        return None
     skipped_known = 0
-    if known_open:
-        kc = [t for t in traces if known_class(t)]
-        keep = set(x["id"] for x in vlib.sample(rng, kc, 4))
-        skipped_known = len(kc) - len(keep)
-        traces = [t for t in traces if not known_class(t) or t["id"] in keep]
+    classes = {}
+    for t in traces:
+        c = known_class(t)
+        if c:
+            classes.setdefault(c, []).append(t)
+    keep = set()
+    for c in sorted(classes):
+        keep |= set(x["id"] for x in vlib.sample(rng, classes[c], 2))
+        skipped_known += len(classes[c]) - min(2, len(classes[c]))
+    traces = [t for t in traces if not known_class(t) or t["id"] in keep]
     accepted, rejected = ctx.validate_batch("BlobPutTrace", "C05_trace.cfg", traces, timeout=3000, max_reports=12)
     for r in rejected:
         t = r["trace"]
@@ -299,7 +366,8 @@ def run(ctx):
                 hb[-1] if hb else "?", t["id"], json.dumps(r["event"])))
         detail = (r["detail"] or "").strip().strip('"') or r["reason"]
         mounted = any(e["ev"] == "post" and e.get("mounted") == 1 for e in t["events"])
-        sig = "%s:%s:%s" % (t["scenario"]["dest"], detail, "mount-accepted" if mounted else "upload")
+        ctxname = "mount-accepted" if mounted else "invalid-digest" if t["scenario"]["decl"] in INVALID else "upload"
+        sig = "%s:%s:%s" % (t["scenario"]["dest"], detail, ctxname)
         what = "%s at event %s of trace %s (decl=%s seek=%s len=%s)" % (
             detail, json.dumps(r["event"]), t["id"], t["scenario"]["decl"], t["scenario"]["seek"], t["header"]["len"])
         ctx.report(sig, what, {"scenario": t["scenario"], "header": t["header"], "events": t["events"],
